@@ -1,5 +1,5 @@
 (* The single entry point of the correspondence drivers. *)
-From PV Require Import Common.Wire Frame.Dispatch Chain.Dispatch Socks.Dispatch Mux.Dispatch.
+From PV Require Import Common.Wire Frame.Dispatch Chain.Dispatch Socks.Dispatch Mux.Dispatch Flow.Dispatch.
 
 Definition dispatch (c : list N) : list N :=
   match c with
@@ -7,5 +7,6 @@ Definition dispatch (c : list N) : list N :=
   | 20 :: r => run_chain r
   | 18 :: r => run_socks r
   | 30 :: r => run_mux r
+  | 31 :: r => run_flow r
   | _ => MALFORMED
   end.
